@@ -5,7 +5,7 @@ patch="$1"; tier="$2"; shift 2
 cd /repo || exit 2
 if ! git diff --quiet; then echo "REPO DIRTY, refusing"; exit 2; fi
 git apply "$patch" || { echo "PATCH DOES NOT APPLY"; exit 2; }
-bak=$(mktemp -d /tmp/seedwork/evbak.XXXXXX); cp -a /verif/evidence/. "$bak"/
+mkdir -p /tmp/seedwork; bak=$(mktemp -d /tmp/seedwork/evbak.XXXXXX); cp -a /verif/evidence/. "$bak"/
 trap 'git -C /repo checkout -- . ; git -C /repo clean -fdq -- . >/dev/null 2>&1; rm -rf /verif/evidence; mkdir -p /verif/evidence; cp -a "$bak"/. /verif/evidence/; rm -rf "$bak"' EXIT
 cd /verif
 for p in "$@"; do
